@@ -1,6 +1,7 @@
 package main
 
 import (
+	"go/token"
 	"flag"
 	"fmt"
 	"golang.org/x/tools/go/ssa"
@@ -285,6 +286,51 @@ func verifyAll(w *World, sp *Specs, mods *ModAnalysis, keys []string, families m
 }
 
 func init() {
+	devCmds["loops"] = func(args []string) {
+		// loops <repo> <fnkey>: loop ordinals with the source line of their header
+		w, err := LoadWorld(args[0])
+		if err != nil {
+			panic(err)
+		}
+		fn := w.Funcs[args[1]]
+		if fn == nil {
+			fmt.Println("no such function")
+			return
+		}
+		ci := analyzeCFG(fn)
+		for _, li := range ci.loops {
+			best := token.NoPos
+			for _, b := range fn.Blocks {
+				if !li.blocks[b] {
+					continue
+				}
+				for _, ins := range b.Instrs {
+					if p := ins.Pos(); p.IsValid() && (best == token.NoPos || p < best) {
+						best = p
+					}
+				}
+			}
+			hp := token.NoPos
+			for _, ins := range li.header.Instrs {
+				if _, isPhi := ins.(*ssa.Phi); isPhi {
+					continue
+				}
+				if p := ins.Pos(); p.IsValid() && (hp == token.NoPos || p < hp) {
+					hp = p
+				}
+			}
+			for _, s := range li.header.Succs {
+				if li.blocks[s] && hp == token.NoPos {
+					for _, ins := range s.Instrs {
+						if p := ins.Pos(); p.IsValid() && (hp == token.NoPos || p < hp) {
+							hp = p
+						}
+					}
+				}
+			}
+			fmt.Printf("loop %d header block %d (%s) first position in loop %s, in header/body %s\n", li.ordinal, li.header.Index, li.header.Comment, w.Fset.Position(best), w.Fset.Position(hp))
+		}
+	}
 	devCmds["dyncalls"] = func(args []string) {
 		w, err := LoadWorld("/repo")
 		if err != nil {
